@@ -258,8 +258,8 @@ AUDITED_DROPS = [
     (r"^cache::Cache::wait(::\{closure#\d+\})*$", r"^(e|tmp)$", r"SendError<cache::Item<V>>", NO_VALUE + " (Wait; its token releases in Drop)"),
     (r"^cache::Cache::try_remove(::\{closure#0\})?$", r"^tmp$", r"^std::result::Result<\(\), .*SendError<cache::Item<V>>>$", NO_VALUE + " (Delete)"),
     (r"^cache::Cache::try_insert_in(::\{closure#0\})?$", r"^val$", r"^V$", "closed cache: the value is dropped and insert returns false (never accepted)"),
-    (r"^cache::Cache::try_insert_in::\{closure#0\}$", r"^item$", r"^cache::Item<V>$", INSERT_FALSE),
-    (r"^cache::Cache::try_insert_in::\{closure#0\}(::\{closure#[01]\})?$", r"^tmp$", r"SendError<cache::Item<V>>$|^std::option::Option<\(u64, cache::Item<V>\)>$", INSERT_FALSE),
+    (r"^cache::Cache::try_insert_in(::\{closure#\d+\})*$", r"^item$", r"^cache::Item<V>$", INSERT_FALSE),
+    (r"^cache::Cache::try_insert_in(::\{closure#\d+\})*$", r"^tmp$", r"SendError<cache::Item<V>>$|^std::option::Option<\(u64, cache::Item<V>\)>$", INSERT_FALSE),
     (r"^cache::CacheProcessor::spawn::\{closure#0\}$", r"^tmp$", r"^std::result::Result<cache::Item<V>, .*RecvError>$", "final drain on the stop arm: close() drops what is still buffered (documented exception; Wait tokens release in Drop)"),
     (r"^cache::CacheProcessor::handle_close_event$", r"^tmp$", r"^std::result::Result<cache::Item<V>, .*RecvError>$", "final drain on the stop arm: close() drops what is still buffered (documented exception)"),
     (r"^cache::Cache::try_update$", r"^v$", r"^V$", "only_update on an absent / vetoed / conflicting key: insert_if_present returns false, the value was never accepted"),
